@@ -17,7 +17,8 @@
    rendered text (decorators, multi-line headers, CRLF, no final newline, offsets) - the parser-position oracle. *)
 From Coq Require Import ZArith.
 From TL Require Import Lib.Base Lib.GenTypes Model.LocTypes Gen.LocGen Model.Loc Model.LocRun Actual.LocActual
-     Proofs.LocBase Proofs.LocJudge Proofs.LocRender Proofs.LocNesting Proofs.LocMagic Proofs.LocSrp Proofs.LocRust Proofs.LocDry Proofs.LocPrint.
+     Proofs.LocBase Proofs.LocJudge Proofs.LocRender Proofs.LocNesting Proofs.LocMagic Proofs.LocSrp Proofs.LocRust Proofs.LocDry Proofs.LocPrint
+     Gen.LocPatGen Model.LocPat Proofs.LocPat.
 From TL Require Model.Skel Model.Nesting Model.MagicNum Model.Magic Model.SrpTypes Model.Srp Model.RustSafetyTypes Model.RustSafety
      Model.DryPipe Model.Dry Model.Embed Model.PrintStmt.
 
@@ -73,7 +74,7 @@ Print Assumptions C12_sarif_region.
 
 (* ---------------------------------------------------------------- C. the builder model *)
 Theorem C12_model_reports_the_construct_line : forall q f c,
-  q_rs_chain_start q = false -> q_ts_console_chain_start q = false ->
+  q_rs_chain_start q = false -> q_ts_arrow_node_start q = false -> q_ts_console_chain_start q = false ->
   q_fh_header_relative q = false -> q_col_const_unclamped q = false ->
   wf_construct f c = true -> loc_ok f c (model_line q c) (model_col q f c) = true.
 Proof. exact model_ideal_ok. Qed.
@@ -122,13 +123,13 @@ Theorem C12_srp_reports_class_headers : forall q c f r, lines_one_based f -> In 
 Proof. exact srp_location_recorded. Qed.
 Print Assumptions C12_srp_reports_class_headers.
 
-Theorem C12_rust_reports_calls : forall q c file r, In r (RustSafety.report q c file) ->
-  exists t k cs, In t file /\ subnode (RustSafetyTypes.N k cs) t /\ at_call q k r.
+Theorem C12_rust_reports_calls : forall q ls c file r, In r (RustSafety.report q ls c file) ->
+  exists t k cs, In t file /\ subnode (RustSafetyTypes.N k cs) t /\ at_call q ls k r.
 Proof. exact rust_location_recorded. Qed.
 Print Assumptions C12_rust_reports_calls.
 
-Theorem C12_rust_reports_the_call_line : forall q c file rule line col, RustSafety.q_chain_start_line q = false ->
-  In (rule, line, col) (RustSafety.report q c file) ->
+Theorem C12_rust_reports_the_call_line : forall q ls c file rule line col msg, RustSafety.q_chain_start_line q = false ->
+  In (rule, line, col, msg) (RustSafety.report q ls c file) ->
   exists t k cs, In t file /\ subnode (RustSafetyTypes.N k cs) t /\
     match k with
     | RustSafetyTypes.KMethod _ sc ml _ => line = ml + 1 /\ col = sc
@@ -148,6 +149,51 @@ Theorem C12_print_reports_the_call : forall allow file r, In r (PrintStmt.print_
               /\ r = (Embed.line (Embed.ninfo n), Embed.col (Embed.ninfo n), "", "").
 Proof. exact print_location_recorded. Qed.
 Print Assumptions C12_print_reports_the_call.
+
+(* ---------------------------------------------------------------- D'. pattern linters *)
+(* lbyl, method-property, stateless-class, collection-pipeline, cqs (Python), string-concat-loop and regex-in-loop (Python): whatever the detector selects (the selection is an oracle
+   here), the violation carries lineno / col_offset (or the constant column) of a node of the file whose class is the one
+   read from the source - an `if` statement, a `def`, a `class`, a `for` loop, an augmented assignment, a call - and quotes that node's name *)
+Theorem C12_pattern_linters_report_their_node : forall linter s sel file l c name,
+  site_of linter = Some s -> In (l, c, name) (pat_reports s sel file) ->
+  exists t n, In t file /\ subtree n t /\ smem (Embed.ncls n) (ps_classes s) = true /\ name = Embed.nsval n
+              /\ (1 <= Embed.line (Embed.ninfo n) -> l = Embed.line (Embed.ninfo n))
+              /\ (c = Embed.col (Embed.ninfo n) \/ exists k, ps_col s = CConst k /\ c = k).
+Proof. exact pat_reports_node_line. Qed.
+Print Assumptions C12_pattern_linters_report_their_node.
+
+Theorem C12_pattern_sites :
+  map (fun k => option_map (fun s => (ps_classes s, ps_line s, ps_col s)) (site_of k)) ["lbyl"; "method-property"; "stateless-class"; "collection-pipeline"]
+  = [Some (["If"], LBase1 0, CNode 0); Some (["FunctionDef"], LBase1 0, CNode 0); Some (["ClassDef"], LBase1 0, CNode 0);
+     Some (["For"], LBase1 0, CConst 0)].
+Proof. exact pat_sites_fact. Qed.
+Print Assumptions C12_pattern_sites.
+
+Theorem C12_pattern_sites_cqs_perf :
+  map (fun k => option_map (fun s => (ps_classes s, ps_line s, ps_col s)) (site_of k)) ["cqs"; "perf-concat"; "perf-regex"]
+  = [Some (["FunctionDef"; "AsyncFunctionDef"], LBase1 0, CNode 0); Some (["AugAssign"], LBase1 0, CNode 0); Some (["Call"], LBase1 0, CNode 0)].
+Proof. exact pat_sites_fact2. Qed.
+Print Assumptions C12_pattern_sites_cqs_perf.
+
+Theorem C12_pattern_judge_is_sound : forall s file l c name, pat_hit s file (l, c, name) = true ->
+  exists t n, In t file /\ subtree n t /\ smem (Embed.ncls n) (ps_classes s) = true
+              /\ l = eval_line (ps_line s) (Embed.line (Embed.ninfo n) - 1) /\ c = eval_col (ps_col s) (Embed.col (Embed.ninfo n))
+              /\ (name = "" \/ name = Embed.nsval n).
+Proof. exact pat_hit_sound. Qed.
+Print Assumptions C12_pattern_judge_is_sound.
+
+(* the TypeScript console detector, modelled in full (its source shape is template-checked by the translator): it reports
+   EXACTLY the call_expression nodes whose first member_expression child has `console` as first identifier child and a
+   configured method as first property_identifier child - each at (row + 1, 0), quoting that method *)
+Theorem C12_console_detector_exact : forall methods root r, In r (console_collect methods root) <->
+  exists n m, tsub n root /\ is_console_call methods n m /\ r = (eval_line console_line (trow n), eval_col console_col (tcol n), m).
+Proof. exact console_reports_exact. Qed.
+Print Assumptions C12_console_detector_exact.
+
+Theorem C12_console_report_position : forall methods root l c m, In (l, c, m) (console_collect methods root) ->
+  exists n, tsub n root /\ tty n = "call_expression" /\ l = trow n + 1 /\ c = 0 /\ smem m methods = true.
+Proof. exact console_report_position. Qed.
+Print Assumptions C12_console_report_position.
 
 (* ---------------------------------------------------------------- E. renderer bookkeeping, judge *)
 Theorem C12_renderer_records_point_at_headers : forall it unit level pre post r,
@@ -185,5 +231,5 @@ Example C12_nonvacuous :
   forallb (wf_construct ex_file) ex_cons = true
   /\ map (fun c => (model_line loc_ideal c, model_col loc_ideal ex_file c)) ex_cons = [(2, 0); (2, 20)]
   /\ judge loc_actual ex_file ex_cons [R "srp.ts" "DataHandler" 2 0 ["DataHandler"] ["class "] true]
-     = [[true; true; true; true; true; true; true; true]].
+     = [[true; true; true; true; true; true; true; true; true]].
 Proof. vm_compute. repeat split; reflexivity. Qed.
